@@ -26,10 +26,19 @@ Snaps   == {"live", "smaller", "larger"}
 SwapCasesBal == [op : {"swapIn", "swapOut"}, kind : {"bal"}, mag : Mags, ratio : Ratios, w : Weights, fee : Fees, size : Sizes, dir : Dirs]
 SwapCasesOra == [op : {"swapIn", "swapOut"}, kind : {"oracle"}, mag : Mags \ {"e0", "e3"}, ratio : {"1:1", "1:1e3"}, w : {<<1, 1>>}, fee : {"0", "0.003", "0.02"},
                  size : Sizes, dir : Dirs, ext : Exts, pxdev : PxDevs, snap : Snaps]
-JoinCases    == [op : {"joinAll", "joinSingle"}, kind : {"bal", "oracle"}, mag : Mags \ {"e0"}, ratio : {"1:1", "1:1e3", "1e3:1"}, w : Weights,
+\* oracle pools are built balanced in value at their target weights and then the price of one asset is moved: "x9" / "/9" put a
+\* 1:1 pool at 90:10 / 10:90, beyond the 0.3 weight-distance threshold where recovery bonuses / breaking fees change regime
+OffDevs == {"0", "+50%", "x9", "/9"}
+JoinCases    == [op : {"joinAll", "joinSingle"}, kind : {"bal"}, mag : Mags \ {"e0"}, ratio : {"1:1", "1:1e3", "1e3:1"}, w : Weights,
                  fee : {"0", "0.003", "0.02"}, size : JoinSz, dir : Dirs, supply : Supplies, snap : {"live", "smaller"}]
-ExitCases    == [op : {"exit", "exitSingle"}, kind : {"bal", "oracle"}, mag : Mags \ {"e0"}, ratio : {"1:1", "1:1e3", "1e3:1"}, w : {<<1, 1>>, <<1, 2>>, <<3, 2>>},
+                \cup
+                [op : {"joinAll", "joinSingle"}, kind : {"oracle"}, mag : Mags \ {"e0"}, ratio : {"1:1", "1:1e3", "1e3:1"}, w : Weights,
+                 fee : {"0", "0.003", "0.02"}, size : JoinSz, dir : Dirs, supply : Supplies, snap : {"live", "smaller"}, pxdev : {"0", "x9", "/9"}]
+ExitCases    == [op : {"exit", "exitSingle"}, kind : {"bal"}, mag : Mags \ {"e0"}, ratio : {"1:1", "1:1e3", "1e3:1"}, w : {<<1, 1>>, <<1, 2>>, <<3, 2>>},
                  fee : {"0", "0.003"}, size : ExitSz, dir : Dirs, supply : Supplies]
+                \cup
+                [op : {"exit", "exitSingle"}, kind : {"oracle"}, mag : Mags \ {"e0"}, ratio : {"1:1", "1:1e3", "1e3:1"}, w : {<<1, 1>>, <<1, 2>>, <<3, 2>>},
+                 fee : {"0", "0.003"}, size : ExitSz, dir : Dirs, supply : Supplies, pxdev : OffDevs]
 
 VARIABLE c
 Init == c \in SwapCasesBal \cup SwapCasesOra \cup JoinCases \cup ExitCases
